@@ -1,0 +1,10 @@
+//go:build verif
+
+package rpc
+
+import "github.com/projecteru2/core/types"
+
+// VerifToSendLargeFileChunks exports toSendLargeFileChunks for the verification harness.
+func VerifToSendLargeFileChunks(file types.LinuxFile, ids []string) []*types.SendLargeFileOptions {
+	return toSendLargeFileChunks(file, ids)
+}
